@@ -208,6 +208,8 @@ def _worker(args):
     except BaseException as e:  # harness error, not a property verdict
         return {"harness_error": f"shard {shard!r}: {type(e).__name__}: {e}\n{traceback.format_exc()}"}
     d = st.pack()
+    for v in d["violations"]:
+        v["shard"] = jenc(shard)
     d["shard"] = repr(shard)[:120]
     d["wall"] = time.time() - t0
     return d
@@ -285,6 +287,18 @@ def main(argv: Optional[List[str]] = None) -> int:
         case = jdec(art["case"])
         res = mod.replay(case)
         print("case:", json.dumps(art["case"])[:2000])
+        if not res and "shard" in art:
+            # history-dependent violation: re-run the whole shard (its call history) in this fresh process
+            st = Stats()
+            shard = jdec(art["shard"])
+            mod.run_shard(shard, art.get("tier", a.tier), st)
+            res = [
+                {"signature": v["signature"], "expected": v["expected"], "observed": v["observed"]}
+                for v in st.violations
+                if v["signature"] == art["signature"]
+            ][:1]
+            if res:
+                print(f"(reproduced only by replaying the whole shard {shard!r}: the violation depends on the call history)")
         if res:
             for v in res:
                 print("signature:", v["signature"])
@@ -315,7 +329,9 @@ def main(argv: Optional[List[str]] = None) -> int:
     jobs = max(1, min(a.jobs, len(shards)))
     work = [(PROPS[pid], s, a.tier) for s in shards]
     harness_error = None
-    pool = ctx.Pool(jobs, maxtasksperchild=getattr(mod, "MAXTASKS", None))
+    # one fresh (forked) process per shard: a shard's call history is exactly the shard itself,
+    # so a history-dependent violation can be replayed by re-running its shard in a fresh process
+    pool = ctx.Pool(jobs, maxtasksperchild=getattr(mod, "MAXTASKS", 1))
     try:
         it = pool.imap_unordered(_worker, work, chunksize=1)
         done = 0
